@@ -202,11 +202,13 @@ def handle (line : String) : String :=
       let half : Bool := decide ((plan.splitOn "half=1").length > 1)
       let dropctx : Bool := decide ((plan.splitOn "!").length > 1)
       let noticed : Bool := decide ((plan.splitOn "noticed=1").length > 1)
+      let byDrop : Bool := decide ((plan.splitOn "bydrop=1").length > 1)
       let hang := kv "closed" obs == some "timeout"
       let cls :=
         if half then s!"{mode}-half-sent" ++ (if hang then "-hang" else "")
         else s!"{mode}{if tls then "-tls" else ""}-stay{bucket nStay}-left{bucket nLeft}-idle{bucket (watch.length - nStay)}-w{bucket (nwait - 1)}"
           ++ (if dropctx then "-dropctx" else "") ++ (if noticed && nLeft > 0 then "-noticed" else "")
+          ++ (if byDrop then "-bydrop" else "")
       out id agree (b2s spec) cls "-" (model ++ (if spec then "" else s!" failing={failing}"))
     | _, _, _, _, _ => bad id "parse"
   | _ :: id :: _ => bad id "shape"
